@@ -44,6 +44,9 @@ func (m *pairModel) all() []string {
 	}
 	evs := append(m.tickEvents(), m.netEvents()...)
 	evs = append(evs, m.unsignalled()...)
+	if m.waits < m.cfg.Waits {
+		evs = append(evs, "wait")
+	}
 	switch m.exch {
 	case 0:
 		if m.exchanges < m.cfg.Restarts {
@@ -130,6 +133,12 @@ func (m *pairModel) Apply(ev string) {
 	}
 	kind, arg, _ := strings.Cut(ev, ":")
 	switch kind {
+	case "wait": // the clock moves on (acceptance waits are measured from the start of the checks)
+		m.waits++
+		time.Sleep(600 * time.Millisecond)
+		settle()
+
+		return
 	case "signal":
 		i, j := int(arg[0]-'0'), 0
 		fmt.Sscan(arg[2:], &j) //nolint:errcheck
@@ -213,9 +222,12 @@ func (pw *pairWorld) answerArrives() {
 }
 
 func (m *pairModel) Key() (string, []int) {
-	spent := []int{m.side[0].ticks, m.side[1].ticks, m.drops, m.dups, m.devs, m.exchanges}
+	spent := []int{m.side[0].ticks, m.side[1].ticks, m.drops, m.dups, m.devs, m.exchanges, m.waits}
 
 	k := m.canon() + fmt.Sprintf(" gen=%d/%d exch=%d/%d sig=%v/%v lost=%v", m.side[0].gen, m.side[1].gen, m.exch, m.exchInit*m.exch, m.side[0].sigDone, m.side[1].sigDone, m.lost)
+	if m.cfg.Waits > 0 {
+		k += fmt.Sprintf(" clock=+%dx600ms", m.waits) // the selectors read the time since they started
+	}
 	if m.cfg.Monitor {
 		k += " ledger=" + m.ledgers[0].summary() + "/" + m.ledgers[1].summary()
 	}
@@ -273,6 +285,10 @@ func (m *pairModel) Finish() []vtProblem {
 		rounds = 4
 	}
 	bidir := m.bidirectional()
+	if m.cfg.Waits > 0 {
+		time.Sleep(2100 * time.Millisecond) // eventually every acceptance wait is over
+		settle()
+	}
 	m.fairSuffix(rounds, func() bool {
 		return m.side[0].agent.getSelectedPair() != nil && m.side[1].agent.getSelectedPair() != nil
 	})
@@ -346,6 +362,7 @@ func checkC01(c *runCtx) {
 		sp{"2x2 only a1<->b0 works, D<=2", pairCfg{KindsA: host2, KindsB: host2, Blocked: []string{"a0>b0", "a0>b1", "b1>a1"}, Ticks: 3, Drops: 2, Dups: 2, Dev: 2}},
 		sp{"1x1 A behind NAT (prflx discovery), D<=2", pairCfg{KindsA: []string{"nat"}, KindsB: host1, Ticks: 3, Drops: 2, Dups: 2, Dev: 2}},
 		sp{"2x1 A: srflx+host-behind-NAT, D<=2", pairCfg{KindsA: []string{"nat", "srflx"}, KindsB: host1, Ticks: 3, Drops: 2, Dups: 2, Dev: 2}},
+		sp{"1x1 B behind NAT with a srflx candidate, default acceptance waits, the clock advances at any point (<=2 x 600 ms), D<=2", pairCfg{KindsA: host1, KindsB: []string{"srflx"}, Ticks: 3, Drops: 1, Dups: 1, Dev: 2, Waits: 2}},
 		sp{"1x1 both behind NAT with srflx candidates, D<=2", pairCfg{KindsA: []string{"srflx"}, KindsB: []string{"srflx"}, Ticks: 3, Drops: 2, Dups: 2, Dev: 2}},
 		sp{"1x1 both behind NAT, only private addresses signalled (no usable pair), D<=2", pairCfg{KindsA: []string{"nat"}, KindsB: []string{"nat"}, Ticks: 3, Drops: 2, Dups: 2, Dev: 2}},
 		sp{"3x3 reachable, D<=1", pairCfg{KindsA: []string{"host", "host", "host"}, KindsB: []string{"host", "host", "host"}, Ticks: 3, Drops: 1, Dups: 1, Dev: 1}},
